@@ -14,7 +14,7 @@ RULE = ("histories of 1..6 steps (edit the tree; run `group --cache` with config
         "the report bodies (groups, order, paths, lengths, hashes) must be identical. Edits: create, modify same length (mtime forwards, or backwards as "
         "after restoring an older copy), append, truncate, rename/move, delete-and-recreate (inode reuse is measured), hard-link, copy; the harness enforces "
         "the proviso (mtime in ms or length changes with every content change). Configurations switch hash function, "
-        "transform, prefix/suffix sizes and pinned disk kind between steps; some cached runs are SIGKILLed at a hook pause "
+        "transform (one of them fails on about half of the files after producing partial output), prefix/suffix sizes and pinned disk kind between steps; some cached runs are SIGKILLed at a hook pause "
         "point (after the first prefix hash / after all hashing) before the history continues. Cache hits are counted from the "
         "event hook: non-trivial = history step with >=1 cache hit; distinct = (history, step)")
 
@@ -24,7 +24,7 @@ PAUSE_POINTS = ["hash.done.prefix", "hash.done.contents", "hashing.done", "repor
 def cfg_sample(r):
     return {"hash_fn": r.choice(["metro", "blake3", "sha256", "xxhash"]), "kind": r.choice([None, "ssd", "hdd"]),
             "max_prefix": r.choice([None, None, 100, 65536]), "max_suffix": r.choice([None, None, 100, 4096]),
-            "transform": r.choice([None, None, None, "cat", "head100", "head5000", "tail50"]), "threads": r.choice([None, ["1"], ["default:4,2"]]),
+            "transform": r.choice([None, None, None, "cat", "head100", "head5000", "tail50", "failodd"]), "threads": r.choice([None, ["1"], ["default:4,2"]]),
             "match_links": False, "rf": r.choice([None, None, ("over", 0)]), "min0": False, "cache": None}
 
 
